@@ -1,5 +1,6 @@
 import Driver.Util
 import RPVerif.Model.Exec
+import RPVerif.Model.Noop
 open Lean RPVerif.Exec
 
 namespace Driver.Exec
@@ -37,6 +38,17 @@ def handle (j : Json) : Json :=
       | .unsched u  => jl [Json.str "unsched", jn u]
       | .failed u   => jl [Json.str "failed", jn u]
       | .handed u b => jl [Json.str "handed", jn u, Json.str (if b then "DONE" else "FAILED")]))
+  else if op == "noop" then
+    let ops := (jarr j "ops").map (fun o =>
+      match o.getObjVal? "w" with
+      | .ok (.arr a) => RPVerif.Noop.Op.work (a.toList.map asNat)
+      | _ => RPVerif.Noop.Op.collect ((jarr o "c").map asNat))
+    let s := RPVerif.Noop.run ops
+    Json.mkObj [("tasks", jl (s.tasks.map jn)),
+                ("events", jl (s.evs.map (fun e => match e with
+                   | .start u => jl [Json.str "start", jn u]
+                   | .unsched u => jl [Json.str "unsched", jn u]
+                   | .handed u => jl [Json.str "handed", jn u])))]
   else Json.str "bad-op"
 
 end Driver.Exec
